@@ -18,6 +18,7 @@ CASES = [
     Case('done_forgets_status_request', MPI, "                if self.req_status is not None:\n                    self.req_status.Wait()\n", "", 'C08.R3', 'it_check'),
     Case('mpi_skips_residual_after_fine_sweep', MPI, "            self.S.levels[0].sweep.compute_residual(stage='IT_FINE')\n\n            for hook in self.hooks:\n                hook.post_sweep(step=self.S, level_number=0)\n", "            self.S.levels[0].sweep.compute_residual(stage='IT_FINE')\n", 'C08.R5', 'IT_FINE', note='callbacks differ from the serial sibling'),
     Case('mpi_goes_up_after_down', MPI, "        self.S.status.stage = 'IT_COARSE'\n\n    def it_coarse", "        self.S.status.stage = 'IT_UP'\n\n    def it_coarse", 'C08.R5', 'IT_DOWN'),
+    Case('mpi_predictor_fills_next_node', SW + 'generic_implicit_MPI.py', "            L.u[m + 1] = P.dtype_u(L.u[0])\n            L.f[m + 1] = P.eval_f(L.u[m + 1], L.time + L.dt * self.coll.nodes[m])", "            L.u[m + 1] = P.dtype_u(L.u[0])\n            L.f[m + 1] = P.eval_f(L.u[m + 1], L.time + L.dt * self.coll.nodes[m + 1])", 'C08.R9', 'SweeperMPI.predict'),
     # twins
     Case('twin_collective_under_uniform_guard', SW + 'generic_implicit_MPI.py', "            self.comm.Bcast(L.uend, root=root)\n", "            if self.coll.num_nodes > 0:\n                self.comm.Bcast(L.uend, root=root)\n", benign=True),
     Case('twin_pair_kwargs_order', CC + 'check_convergence.py', "self.Send(comm, dest=S.status.slot + 1, buffer=[buff, self.MPI_BOOL])", "self.Send(comm, buffer=[buff, self.MPI_BOOL], dest=S.status.slot + 1)", benign=True),
